@@ -135,6 +135,7 @@ VARIANTS = [
     V( 'peek-guard-as-range', PARSER, "if 4 <= data[path+'..length'] <= 6:", "if data[path+'..length'] in ( 4, 5, 6 ):", silent=[ 'G-PEEK' ] ),
     V( 'member-handler-logs-absent-service', DEVICE, "self, exc, enip_format( r ))\n r.pop( self.SV_COD_CTX, None )", "self, exc, r.service )\n                        r.pop( self.SV_COD_CTX, None )", fires=[ 'P-EACH' ] ),
     V( 'member-handler-logs-service-by-get', DEVICE, "self, exc, enip_format( r ))\n r.pop( self.SV_COD_CTX, None )", "self, exc, r.get( 'service' ))\n                        r.pop( self.SV_COD_CTX, None )", silent=[ 'P-EACH' ] ),
+    V( 'forward-close-collects-from-live-table', DEVICE, "for k in list( self.forwards.keys() ): # we'll be mutating the dict...\n if (addr[0],addr[1]) != k[:2]:\n continue", "for k in [ k_ for k_ in self.forwards if (addr[0],addr[1]) == k_[:2] ]:\n            if (addr[0],addr[1]) != k[:2]:\n                continue", fires=[ 'W-ITERDEL' ] ),
     V( 'forward-close-over-live-view', DEVICE, "for k in list( self.forwards.keys() ): # we'll be mutating the dict...", "for k in self.forwards.keys():", fires=[ 'W-ITERDEL' ] ),
     V( 'forward-close-over-tuple-snapshot', DEVICE, "for k in list( self.forwards.keys() ): # we'll be mutating the dict...", "for k in tuple( self.forwards ):", silent=[ 'W-ITERDEL' ] ),
     V( 'struct-read-complete-by-short-window', LOGIX, "completed = end == endactual and offremains+max_size >= len( input )", "completed		= end == endactual and len( trimmed ) < max_size", fires=[ 'F-STATUS' ] ),
@@ -416,6 +417,8 @@ VARIANTS = [
        "if any( key in term and result[key] is not None and result[key] != term[key] for key in result ):\n                raise AssertionError( 'Failed to override' )\n            continue", silent=[ 'D-PATHSTOP' ] ),
     V( 'pathstop-ignores-explicit-attribute', DEVICE, "or ( attribute is not True #   or a default attribute is supplied\n and 'attribute' not in term ) #     and the term didn't contain a supplied one", "or attribute is not True", fires=[ 'D-PATHSTOP' ] ),
     V( 'pathstop-skips-symbolic', DEVICE, "if ( 'symbolic' not in term # A symbolic term names a Tag: resolve it, or fail\n and result['class'] is not None", "if ( result['class'] is not None", fires=[ 'D-PATHSTOP' ], why='defect AC' ),
+    V( 'resolve-first-hit-wins', DEVICE, "if found and not tag and canonicalize_tag( found + u'.' + working['symbolic'] ) in symbol:", "if False:", fires=[ 'D-PATHSTOP' ], why='defect CU' ),
+    V( 'resolve-longest-name-looked-up-once', DEVICE, "if found and not tag and canonicalize_tag( found + u'.' + working['symbolic'] ) in symbol:", "longer = canonicalize_tag( found + u'.' + working['symbolic'] ) if found and not tag else None\n                if longer is not None and longer in symbol:", silent=[ 'D-PATHSTOP' ] ),
     V( 'pathstop-break-hides-later-symbolic', DEVICE, "% ( result, term, path['segment'] )\n continue", "% ( result, term, path['segment'] )\n            break", fires=[ 'D-PATHSTOP' ], why='defect AC' ),
     V( 'retag-old-attribute-stored-back', LOGIX, "instance.attribute[str(att)] \\\n = val['attribute']", "instance.attribute[str(att)] = attribute", fires=[ 'T-RETAG' ], why='defect AD' ),
     V( 'retag-dotted-form', LOGIX, "instance.attribute[str(att)] \\\n = val['attribute']", "instance.attribute[str(att)] = val.attribute", silent=[ 'T-RETAG' ] ),
